@@ -1198,7 +1198,7 @@ class EKF:
         x = 0.5*dt*omega
         return np.identity(4) + self.Omega(x)
 
-    def h(self, q: np.ndarray) -> np.ndarray:
+    def h(self, q: np.ndarray, with_mag: bool = None) -> np.ndarray:
         """
         Measurement Model
 
@@ -1238,11 +1238,13 @@ class EKF:
             Expected Measurements.
         """
         C = Quaternion(q).to_DCM().T
-        if self.mag is None:
+        if with_mag is None:                    # By default, as the data given to the constructor
+            with_mag = self.mag is not None
+        if not with_mag:
             return C @ self.a_ref
         return np.r_[C @ self.a_ref, C @ self.m_ref]
 
-    def dhdq(self, q: np.ndarray, mode: str = 'normal') -> np.ndarray:
+    def dhdq(self, q: np.ndarray, mode: str = 'normal', with_mag: bool = None) -> np.ndarray:
         """
         Linearization of observations with Jacobian.
 
@@ -1301,11 +1303,13 @@ class EKF:
         """
         if mode.lower() not in ['normal', 'refactored']:
             raise ValueError(f"Mode '{mode}' is invalid. Try 'normal' or 'refactored'.")
+        if with_mag is None:                    # By default, as the data given to the constructor
+            with_mag = self.mag is not None
         qw, qx, qy, qz = q
         if mode.lower() == 'refactored':
             t = skew(self.a_ref)@q[1:]
             H = np.c_[t, q[1:]*self.a_ref*np.identity(3) + skew(t + qw*self.a_ref) - np.outer(self.a_ref, q[1:])]
-            if self.mag is not None:
+            if with_mag:
                 t = skew(self.m_ref)@q[1:]
                 H_2 = np.c_[t, q[1:]*self.m_ref*np.identity(3) + skew(t + qw*self.m_ref) - np.outer(self.m_ref, q[1:])]
                 H = np.vstack((H, H_2))
@@ -1314,7 +1318,7 @@ class EKF:
         H = np.array([[ v[0]*qw + v[1]*qz - v[2]*qy, v[0]*qx + v[1]*qy + v[2]*qz, -v[0]*qy + v[1]*qx - v[2]*qw, -v[0]*qz + v[1]*qw + v[2]*qx],
                       [-v[0]*qz + v[1]*qw + v[2]*qx, v[0]*qy - v[1]*qx + v[2]*qw,  v[0]*qx + v[1]*qy + v[2]*qz, -v[0]*qw - v[1]*qz + v[2]*qy],
                       [ v[0]*qy - v[1]*qx + v[2]*qw, v[0]*qz - v[1]*qw - v[2]*qx,  v[0]*qw + v[1]*qz - v[2]*qy,  v[0]*qx + v[1]*qy + v[2]*qz]])
-        if self.mag is not None:
+        if with_mag:
             H_2 = np.array([[ v[3]*qw + v[4]*qz - v[5]*qy, v[3]*qx + v[4]*qy + v[5]*qz, -v[3]*qy + v[4]*qx - v[5]*qw, -v[3]*qz + v[4]*qw + v[5]*qx],
                             [-v[3]*qz + v[4]*qw + v[5]*qx, v[3]*qy - v[4]*qx + v[5]*qw,  v[3]*qx + v[4]*qy + v[5]*qz, -v[3]*qw - v[4]*qz + v[5]*qy],
                             [ v[3]*qy - v[4]*qx + v[5]*qw, v[3]*qz - v[4]*qw - v[5]*qx,  v[3]*qw + v[4]*qz - v[5]*qy,  v[3]*qx + v[4]*qy + v[5]*qz]])
@@ -1373,9 +1377,9 @@ class EKF:
         Q_t = self.g_noise * W@W.T              # Process Noise Covariance
         P_t = F@self.P@F.T + Q_t                # Predicted Covariance Matrix
         # ----- Correction -----
-        y   = self.h(q_t)                       # Expected Measurement function
+        y   = self.h(q_t, with_mag=mag is not None)    # Expected Measurement function
         v   = z - y                             # Innovation (Measurement Residual)
-        H   = self.dhdq(q_t)                    # Linearized Measurement Matrix
+        H   = self.dhdq(q_t, with_mag=mag is not None) # Linearized Measurement Matrix
         S   = H@P_t@H.T + self.R                # Measurement Prediction Covariance
         K   = P_t@H.T@np.linalg.inv(S)          # Kalman Gain
         self.P = (np.identity(4) - K@H)@P_t     # Updated Covariance Matrix
